@@ -30,6 +30,7 @@ def units(tier):
     us += [("S6", i) for i in range(16)]
     for t in V.object_types():
         us.append(("DEV", "S1", t, 1))
+        us.append(("DEV", "S1n", t, 1))
     us.append(("DEV", "S4", None, 1))
     if tier == "quick":
         for t in V.object_types():
